@@ -121,6 +121,7 @@ type caseResult struct {
 	Sample     any      `json:"sample,omitempty"`
 	Err        string   `json:"err,omitempty"` // binder trouble (infrastructure)
 	Ms         int64    `json:"ms"`
+	Extra      bool     `json:"extra,omitempty"` // not a case: the re-check of kept values at the end of a shard
 }
 
 const btcnet = wire.MainNet
@@ -160,6 +161,7 @@ type worker struct {
 	cur        *caseResult
 	c          *caseRec
 	progress   func(string)
+	kept       keeper // decoded values, re-encoded again after later decodes ("decoded values are stable")
 }
 
 func (w *worker) violate(key, what string, extra map[string]any) {
@@ -447,6 +449,8 @@ func (w *worker) checkCase(i int, c *caseRec, e *expectRec) *caseResult {
 		w.checkMsg(c, e, g, b, p)
 	case c.Type == "header":
 		w.checkHeader(c, e, g, b, p)
+	case c.Type == "txout":
+		w.checkTxOut(c, e, g, b, p)
 	default:
 		w.checkSer(c, e, g, b, p)
 	}
@@ -619,6 +623,17 @@ func (w *worker) afterAccept(where, cls string, g *gen, b *builder, val json.Raw
 		return
 	}
 	w.canonical(where, cls, g, in, again[len(hdr):], canon, lenient, reenc, extra)
+	if len(again) <= keepMaxValue {
+		msg, pver, enc := o.msg, c.Pver, encOf(c.Enc)
+		stream := append(append(make([]byte, 0, len(hdr)+len(in)), hdr...), in...)
+		w.kept.keep(keptValue{kind: "ReadMessageWithEncodingN(" + c.Type + ")", id: w.cur.ID + " " + cls, want: append([]byte(nil), again...),
+			reenc: func() ([]byte, error) {
+				var b bytes.Buffer
+				_, err := wire.WriteMessageWithEncodingN(&b, msg, pver, btcnet, enc)
+				return b.Bytes(), err
+			},
+			redo: func() { wire.ReadMessageWithEncodingN(bytes.NewReader(stream), pver, btcnet, enc) }}, 0)
+	}
 }
 
 func variantExtra(v *variant) map[string]any {
@@ -996,6 +1011,30 @@ func (w *worker) checkSer(c *caseRec, e *expectRec, g *gen, b *builder, p []byte
 			return
 		}
 		w.canonical(where, vcls, g, in[:len(in)-left], again.Bytes(), canon, "", nil, ex)
+		if again.Len() <= keepMaxValue {
+			input := append([]byte(nil), in...)
+			w.kept.keep(keptValue{kind: dapi + "(" + c.Type + ")", id: w.cur.ID + " " + vcls, want: append([]byte(nil), again.Bytes()...),
+				reenc: func() ([]byte, error) {
+					var b bytes.Buffer
+					var err error
+					switch m := got.(type) {
+					case *wire.MsgTx:
+						if witness {
+							err = m.Serialize(&b)
+						} else {
+							err = m.SerializeNoWitness(&b)
+						}
+					case *wire.MsgBlock:
+						if witness {
+							err = m.Serialize(&b)
+						} else {
+							err = m.SerializeNoWitness(&b)
+						}
+					}
+					return b.Bytes(), err
+				},
+				redo: func() { decode(input) }}, 0)
+		}
 	}
 	cls, derr, alloc, pan, got, left := decode(p)
 	w.harmless(dapi+"(valid encoding)", "valid", alloc, pan, p, nil)
@@ -1182,4 +1221,92 @@ func emptyMsg(typ string) wire.Message {
 		return &wire.MsgWTxIdRelay{}
 	}
 	return nil
+}
+
+// checkTxOut: one transaction output on its own through WriteTxOut / ReadTxOut.
+func (w *worker) checkTxOut(c *caseRec, e *expectRec, g *gen, b *builder, p []byte) {
+	var v txOutV
+	if err := json.Unmarshal(c.M, &v); err != nil {
+		w.cur.Err = "txout value: " + err.Error()
+		return
+	}
+	to := wire.TxOut{Value: int64(b.u64("out.value", nil)), PkScript: b.bytes("out.pk", nil, v.PK)}
+	if len(p) != e.Size {
+		w.cur.Err = fmt.Sprintf("rendered %d bytes, specification size %d", len(p), e.Size)
+		return
+	}
+	var buf bytes.Buffer
+	cls, eerr, _, pan := guarded(func() error { return wire.WriteTxOut(&buf, 0, 0, &to) })
+	w.cur.Evals += 3
+	switch {
+	case pan != nil:
+		w.violate("panic:txout:encode", fmt.Sprintf("WriteTxOut panicked: %v", pan), nil)
+	case cls != e.EncRes:
+		w.violate("encode-decision:txout", fmt.Sprintf("WriteTxOut: the specification says %s, btcd says %s (%v)", e.EncRes, cls, eerr), nil)
+	case !bytes.Equal(buf.Bytes(), p):
+		w.violate("layout:txout", "WriteTxOut bytes differ from the layout of the specification: "+firstDiff(p, buf.Bytes()),
+			map[string]any{"spec_hex": hexHead(p), "btcd_hex": hexHead(buf.Bytes())})
+	}
+	if got := to.SerializeSize(); got != e.Size {
+		w.violate("size:txout", fmt.Sprintf("TxOut.SerializeSize() = %d, specification %d", got, e.Size), nil)
+	}
+	decode := func(in []byte) (string, error, uint64, any, *wire.TxOut, int) {
+		r := bytes.NewReader(in)
+		d := new(wire.TxOut)
+		cls, err, alloc, pan := guarded(func() error { return wire.ReadTxOut(r, 0, 0, d) })
+		return cls, err, alloc, pan, d, r.Len()
+	}
+	accepted := func(where, vcls string, val json.RawMessage, d *wire.TxOut, in []byte, left int, canon bool, ex map[string]any) {
+		var xv txOutV
+		if err := json.Unmarshal(val, &xv); err != nil {
+			w.cur.Err = "txout value: " + err.Error()
+			return
+		}
+		exp := wire.TxOut{Value: int64(b.u64("out.value", nil)), PkScript: b.bytes("out.pk", nil, xv.PK)}
+		w.cur.Evals += 2
+		if ok, why := sameValue(*d, exp); !ok {
+			w.violate("roundtrip:txout:"+vcls, fmt.Sprintf("%s: decoded output differs from the specification's value at %s", where, why), ex)
+		}
+		var again bytes.Buffer
+		if err := wire.WriteTxOut(&again, 0, 0, d); err != nil {
+			w.violate("reencode:txout:"+vcls, fmt.Sprintf("%s: accepted output cannot be written again: %v", where, err), ex)
+			return
+		}
+		w.canonical(where, vcls, g, in[:len(in)-left], again.Bytes(), canon, "", nil, ex)
+		if again.Len() <= keepMaxValue {
+			input := append([]byte(nil), in...)
+			w.kept.keep(keptValue{kind: "ReadTxOut", id: w.cur.ID + " " + vcls, want: append([]byte(nil), again.Bytes()...),
+				reenc: func() ([]byte, error) {
+					var b bytes.Buffer
+					err := wire.WriteTxOut(&b, 0, 0, d)
+					return b.Bytes(), err
+				},
+				redo: func() { decode(input) }}, 4<<20)
+		}
+	}
+	cls, derr, alloc, pan, d, left := decode(p)
+	w.harmless("ReadTxOut(valid encoding)", "valid", alloc, pan, p, nil)
+	if w.compareDecision("ReadTxOut(encoding of the value)", "valid", e.Dec, cls, derr, p, nil) {
+		accepted("ReadTxOut(encoding of the value)", "valid", e.Back, d, p, left, e.Canon, nil)
+	}
+	for k := range e.Variants {
+		v := &e.Variants[k]
+		in, aerr := w.applyVariant(g, p, v)
+		if aerr != nil {
+			w.cur.Err = aerr.Error()
+			return
+		}
+		cls, derr, alloc, pan, d, left := decode(in)
+		where := fmt.Sprintf("ReadTxOut(%s %s at=%d del=%d ins=%s cut=%d)", v.Cls, v.F, v.At, v.Del, viDesc(v.Ins), v.Cut)
+		ex := variantExtra(v)
+		w.harmless(where, v.Cls, alloc, pan, in, ex)
+		w.distinct("txout|", c.Shape, "|", v.Cls, "|", v.F, "|", viDesc(v.Ins), "|", v.Cut, "|", v.Res)
+		if w.compareDecision(where, v.Cls, v.Res, cls, derr, in, ex) {
+			accepted(where, v.Cls, v.Val, d, in, left, v.Canon, ex)
+			w.cur.Evals++
+			if (left > 0) != v.Left {
+				w.violate("consumed:txout", fmt.Sprintf("%s: %d bytes left unread, the specification says left=%v", where, left, v.Left), ex)
+			}
+		}
+	}
 }
